@@ -371,7 +371,7 @@ func maxInt(a, b int) int {
 
 func TestC16(t *testing.T) {
 	var rc CancelCase
-	if loadReplay(t, "C16", &rc) {
+	if loadReplay(t, "C16", &rc, "cancel") {
 		for i := 0; i < 10; i++ {
 			if msg := c16Oracle(&rc); msg != "" {
 				t.Fatalf("VERIF-FAIL property=C16 sub=cancel replay=%s :: %s", replayFile(), msg)
